@@ -1,8 +1,9 @@
 """Monitors attached to the imported package by rebinding module attributes (no source hooks).
 
-* :class:`OptimizeProxy` stands in for ``scipy.optimize`` as seen from
-  ``droplets.image_analysis`` and observes every ``least_squares`` call: x0, bounds, the
-  cost at the start (evaluated *before* the solver runs), ``result.cost``, x*, status, nfev.
+* :class:`OptimizeProxy` observes every ``scipy.optimize.least_squares`` call made while it is
+  active (through a dispatcher bound onto ``scipy.optimize`` before the package is imported):
+  x0, bounds, the cost at the start (evaluated *before* the solver runs), ``result.cost``, x*,
+  status, nfev.
 * :func:`wrap_attr` rebinds a module attribute (and listed aliases) to a recording wrapper
   and counts evaluations, so that a bypassed wrapper shows up as zero evaluations.
 """
@@ -16,14 +17,12 @@ import numpy as np
 
 
 class OptimizeProxy:
-    def __init__(self, real):
-        self._real = real
+    """Observer of ``least_squares`` calls made while it is active (see optimize_proxy)."""
+
+    def __init__(self):
         self.calls: list[dict] = []
 
-    def __getattr__(self, name):
-        return getattr(self._real, name)
-
-    def least_squares(self, fun, x0, *args, **kwargs):
+    def observe(self, real, fun, x0, *args, **kwargs):
         x0 = np.array(x0, dtype=float, copy=True)
         rec = {"x0": x0.copy(), "bounds": None, "kwargs": {k: v for k, v in kwargs.items() if k != "bounds"}}
         if "bounds" in kwargs:
@@ -39,7 +38,7 @@ class OptimizeProxy:
             rec["pre_exc"] = repr(e)
         self.calls.append(rec)
         try:
-            res = self._real.least_squares(fun, x0, *args, **kwargs)
+            res = real(fun, x0, *args, **kwargs)
         except Exception as e:
             rec["exc"] = repr(e)
             raise
@@ -49,18 +48,39 @@ class OptimizeProxy:
         return res
 
 
+_active_proxies: list = []
+
+
+def install_least_squares_dispatcher():
+    """Rebind ``scipy.optimize.least_squares`` to a dispatcher *before* the package under test is
+    imported, so that both ``optimize.least_squares(...)`` (attribute looked up at call time) and
+    ``from scipy.optimize import least_squares`` (bound at import time) reach the observer.  The
+    dispatcher is transparent unless an observer is active."""
+    import scipy.optimize as so
+
+    real = so.least_squares
+    if getattr(real, "_vmon_dispatcher", False):
+        return
+
+    @functools.wraps(real)
+    def least_squares(fun, x0, *args, **kwargs):
+        if _active_proxies:
+            return _active_proxies[-1].observe(real, fun, x0, *args, **kwargs)
+        return real(fun, x0, *args, **kwargs)
+
+    least_squares._vmon_dispatcher = True
+    so.least_squares = least_squares
+
+
 @contextmanager
 def optimize_proxy():
-    """Install the proxy on droplets.image_analysis.optimize for the duration."""
-    from droplets import image_analysis as ia
-
-    real = ia.optimize
-    proxy = OptimizeProxy(real)
-    ia.optimize = proxy
+    """Observe every least_squares call made by the package for the duration."""
+    proxy = OptimizeProxy()
+    _active_proxies.append(proxy)
     try:
         yield proxy
     finally:
-        ia.optimize = real
+        _active_proxies.remove(proxy)
 
 
 @contextmanager
